@@ -586,6 +586,12 @@ scpi_bool_t matchCommand(const char * pattern, const char * cmd, size_t len, int
                 /* verify all subsequent pattern parts are also optional */
                 while (pattern_len) {
                     pattern_sep_pos = patternSeparatorPos(pattern_ptr, pattern_len);
+                    if ((pattern_sep_pos > 0) && pattern_ptr[pattern_sep_pos - 1] == '#') {
+                        if (numbers && (numbers_idx < numbers_len)) {
+                            numbers[numbers_idx] = default_value; /* skipped keyword */
+                        }
+                        numbers_idx++;
+                    }
                     switch (pattern_ptr[pattern_sep_pos]) {
                         case '[':
                             brackets++;
